@@ -21,8 +21,8 @@ structure Params where
   hasLoop : Bool
   interval : Nat := 10
   emits : EmitRule := .none
-  /-- BindRemoteStream asks the loop for an immediate report over a channel of capacity 1,
-  selecting on close (interval PLI). -/
+  /-- BindRemoteStream asks the loop for an immediate report through a pending queue and a
+  non-blocking wake-up (interval PLI). -/
   immediateOnBind : Bool := false
   /-- every RTP read hands the packet to the loop over an unbuffered channel, selecting on close
   (twcc sender, rfc8888): without a loop the read waits for Close. -/
@@ -48,7 +48,7 @@ structure St where
   writers : List Nat := []
   hasRtcpReader : Bool := false
   reads : List (Nat × Nat) := [] -- reads since the last bind, per remote SSRC
-  queued : List Nat := []        -- immediate-PLI channel content (capacity 1)
+  queued : List Nat := []        -- immediate-PLI requests not yet served (no loop yet)
   waiting : List Waiting := []
   emitted : List Nat := []       -- media SSRCs mentioned since the last flush
   blocked : Nat := 0
@@ -88,15 +88,14 @@ def bindW (s : St) : St × Outcome :=
             emitted := addAll (fromQueue ++ fromWaiting) s.emitted }, .ret)
 
 def bindRemote (s : St) (ssrc : Nat) : St × Outcome :=
-  let s := setReads { s with remote := insertSorted ssrc s.remote } ssrc 0
-  if !s.p.immediateOnBind then ({ s with readers := insertSorted ssrc s.readers }, .ret) else
-  if s.closed then ({ s with readers := insertSorted ssrc s.readers }, .ret) else
+  let s := setReads { s with remote := insertSorted ssrc s.remote, readers := insertSorted ssrc s.readers } ssrc 0
+  if !s.p.immediateOnBind then (s, .ret) else
+  if s.closed then (s, .ret) else                 -- requests after Close are dropped
   if s.loopStart.isSome then
-    ({ s with readers := insertSorted ssrc s.readers, emitted := insertSorted ssrc s.emitted }, .ret)
-  else if s.queued.isEmpty then
-    ({ s with readers := insertSorted ssrc s.readers, queued := [ssrc] }, .ret)
+    ({ s with emitted := insertSorted ssrc s.emitted }, .ret)
   else
-    ({ s with waiting := s.waiting ++ [.forcePLI ssrc] }, .blocked)
+    -- no loop yet: the request is queued (never blocks) and served when a loop starts
+    ({ s with queued := s.queued ++ [ssrc] }, .ret)
 
 def bindLocal (s : St) (ssrc : Nat) : St × Outcome :=
   ({ s with loc := insertSorted ssrc s.loc, writers := insertSorted ssrc s.writers }, .ret)
